@@ -311,6 +311,25 @@ func (ls *liveSession) Close() {
 	}()
 }
 
+// lossesNotCausedByMonitor tells whether the executor has declared more of this session's
+// machines lost than the monitor killed: the keepalive of a live machine timed out (a starved
+// host). Before a verdict that assumes intact machines is given, the executor gets a moment to
+// log a loss that is in the making.
+func (ls *liveSession) lossesNotCausedByMonitor(killedByMonitor int, settle bool) bool {
+	if ls == nil || ls.IP == nil {
+		return false
+	}
+	for i := 0; ; i++ {
+		if len(ls.lostMachines()) > killedByMonitor {
+			return true
+		}
+		if !settle || i >= 15 {
+			return false
+		}
+		time.Sleep(100 * time.Millisecond)
+	}
+}
+
 // lostMachines returns the addresses of this session's machines whose loss the executor has
 // logged ("lost machine <addr>: ..."), whoever caused it.
 func (ls *liveSession) lostMachines() []string {
